@@ -238,8 +238,8 @@ def run_table(ctx, FST, parents, children, pattern):
 def classify(psrc, path, csrc, cnode, ep, form, tgt, what, valid):
     """mechanism keys (shared with C01 where the mechanism is the same)"""
     slot = path[-1][0]
-    if isinstance(cnode, (ast.Yield, ast.YieldFrom)) and form == 'fst' and ep in SLICE_OPS and slot in ('args', 'bases'):
-        return 'yield-fst-into-arglikes-unparenthesized'
+    if isinstance(cnode, (ast.Yield, ast.YieldFrom)) and form == 'fst' and ep == 'view_setslice' and slot in ('args', 'bases'):
+        return 'yield-fst-coerced-to-arglike-sequence-unparenthesized'
     if isinstance(cnode, ast.Lambda) and slot == 'values' and ep in SLICE_OPS:
         return 'lambda-into-boolop-values-slice-path-unparenthesized'
     if not valid and any(isinstance(x, ast.Starred) for x in ast.walk(cnode)):
